@@ -20,18 +20,30 @@
 (***************************************************************************)
 EXTENDS Naturals, Sequences, FiniteSets, TLC
 
-CONSTANTS Thread, Id, Want      \* Want : [Thread -> Id]
+CONSTANTS
+  \* @type: Set(Str);
+  Thread,
+  \* @type: Set(Str);
+  Id,
+  \* @type: Str -> Str;
+  Want      \* Want : [Thread -> Id]
 ASSUME Want \in [Thread -> Id]
 
-VARIABLES locked,    \* the locked-identifier list (a sequence, as in the code)
-          mutex,     \* holder of the condition's mutex, or "free"
-          waitq,     \* FIFO queue of threads blocked in cond.wait()
-          pc         \* per thread: "idle" "claim" "waiting" "woken" "working" "release" "done"
+VARIABLES
+  \* @type: Seq(Str);
+  locked,    \* the locked-identifier list (a sequence, as in the code)
+  \* @type: Str;
+  mutex,     \* holder of the condition's mutex, or "free"
+  \* @type: Seq(Str);
+  waitq,     \* FIFO queue of threads blocked in cond.wait()
+  \* @type: Str -> Str;
+  pc         \* per thread: "claim" "waiting" "woken" "working" "release" "done"
 
 vars == <<locked, mutex, waitq, pc>>
-InList(i) == \E k \in 1..Len(locked) : locked[k] = i
-Remove(s, i) == LET k == CHOOSE k \in 1..Len(s) : s[k] = i
-                IN SubSeq(s, 1, k - 1) \o SubSeq(s, k + 1, Len(s))
+InList(i) == \E k \in DOMAIN locked : locked[k] = i
+\* @type: (Seq(Str), Str) => Seq(Str);
+Remove(s, i) == LET at == CHOOSE j \in DOMAIN s : s[j] = i
+                IN SubSeq(s, 1, at - 1) \o SubSeq(s, at + 1, Len(s))
 
 Init == /\ locked = <<>> /\ mutex = "free" /\ waitq = <<>>
         /\ pc = [t \in Thread |-> "claim"]
@@ -80,12 +92,28 @@ Spec == Init /\ [][Next \/ (Terminated /\ UNCHANGED vars)]_vars
 \* safety
 MutualExclusion == \A t, u \in Thread :
    (t # u /\ pc[t] \in {"working", "release"} /\ pc[u] \in {"working", "release"}) => Want[t] # Want[u]
-NoDuplicates == \A i \in Id : Cardinality({k \in 1..Len(locked) : locked[k] = i}) <= 1
-ListIsHolders == {locked[k] : k \in 1..Len(locked)} = {Want[t] : t \in {u \in Thread : pc[u] \in {"working", "release"}}}
+NoDuplicates == \A i \in Id : Cardinality({k \in DOMAIN locked : locked[k] = i}) <= 1
+ListIsHolders == {locked[k] : k \in DOMAIN locked} = {Want[t] : t \in {u \in Thread : pc[u] \in {"working", "release"}}}
 \* a waiter sleeping while its identifier is free and nobody will ever notify again
 Stranded == \E t \in Thread : pc[t] = "waiting" /\ ~InList(Want[t])
                                /\ \A u \in Thread : pc[u] \in {"waiting", "done"}
 NoStranding == ~Stranded
 \* liveness
 EveryoneFinishes == <>Terminated
+
+(***************************************************************************)
+(* An INDUCTIVE invariant (checked with Apalache, MC_LockApa.tla): it      *)
+(* implies MutualExclusion, NoDuplicates and ListIsHolders for every       *)
+(* reachable state of any execution, not only the ones TLC enumerated.     *)
+(***************************************************************************)
+PcStates == {"claim", "waiting", "woken", "working", "release", "done"}
+Holders  == {t \in Thread : pc[t] \in {"working", "release"}}
+IndInv ==
+  /\ mutex = "free"
+  /\ \A t \in Thread : pc[t] \in PcStates
+  /\ \A i, j \in DOMAIN locked : i # j => locked[i] # locked[j]
+  /\ {locked[k] : k \in DOMAIN locked} = {Want[t] : t \in Holders}
+  /\ \A t, u \in Holders : t # u => Want[t] # Want[u]
+  /\ \A i, j \in DOMAIN waitq : i # j => waitq[i] # waitq[j]
+  /\ {waitq[k] : k \in DOMAIN waitq} = {t \in Thread : pc[t] = "waiting"}
 =============================================================================
